@@ -2,6 +2,8 @@
    answered; [check] recomputes the answer with model/TokenBucket.v.
    CReserve   rate.NewLimiter(lp/lq, burst) driven by ReserveN(t, n) at the given instants:
               observed (DelayFrom(t) in ns, TokensAt(t) in units of 1/(lq*10^9) token; -1 = not compared)
+   CReserveApprox the same with arbitrary rates and instants: float64 rounding allowed for, the
+              delays must agree within tol nanoseconds (InfDuration exactly); tokens not compared
    CProvision Handler.Provision on a configuration: error?, the two burst sizes afterwards, totalLimiter != nil
    CRead      Handler.Handle + throttledConn.Read over a scripted inner connection holding [avail]
               bytes and handing over at most [chunk] per Read: observed (len of the slice the inner
@@ -18,6 +20,7 @@ Definition T (rp rq : Z) (rmax : bool) (rburst trp trq : Z) (trmax : bool) (tbur
 
 Inductive c17case :=
 | CReserve (lp lq burst : Z) (inf : bool) (reqs : list (Z * Z)) (obs : list (Z * Z))
+| CReserveApprox (lp lq burst tol : Z) (reqs : list (Z * Z)) (obs : list (Z * Z))
 | CProvision (cfg : tconfig) (ok : bool) (rb tb : Z) (hast : bool)
 | CRead (cfg : tconfig) (avail chunk : Z) (lens : list Z) (obs : list (Z * Z)) (consT consL : Z).
 
@@ -36,6 +39,14 @@ Fixpoint zz_eqb (a b : list (Z * Z)) : bool :=
   | _, _ => false
   end.
 
+Fixpoint zz_near (tol : Z) (a b : list (Z * Z)) : bool :=
+  match a, b with
+  | [], [] => true
+  | (x1, _) :: a', (x2, _) :: b' =>
+      (if (x1 =? inf_duration) || (x2 =? inf_duration) then x1 =? x2 else Z.abs (x1 - x2) <=? tol) && zz_near tol a' b'
+  | _, _ => false
+  end.
+
 Definition consumed (L : limiter) (st : lstate) : Z := (lburst L * unit L - tok st) / unit L.
 
 Definition pulls_of (tr : list ev) : list (Z * Z) :=
@@ -46,6 +57,9 @@ Definition check (c : c17case) : bool :=
   | CReserve lp lq burst inf reqs obs =>
       let L := {| lp := lp; lq := lq; lburst := burst; linf := inf |} in
       zz_eqb (res_seq L (new_limiter L) reqs) obs
+  | CReserveApprox lp lq burst tol reqs obs =>
+      let L := {| lp := lp; lq := lq; lburst := burst; linf := false |} in
+      zz_near tol (res_seq L (new_limiter L) reqs) obs
   | CProvision cfg ok rb tb hast =>
       match provision cfg with
       | None => negb ok
